@@ -21,8 +21,9 @@ import (
 )
 
 type c04Cfg struct {
-	Source bool
-	Only   []string
+	Source  bool
+	Only    []string
+	Targets []string // command-line targets relative to the pkgsrc root; empty = "-r ."
 }
 
 func (c c04Cfg) String() string {
@@ -33,7 +34,30 @@ func (c c04Cfg) String() string {
 	for _, o := range c.Only {
 		s += "--only " + q(o) + " "
 	}
+	if len(c.Targets) > 0 {
+		s += strings.Join(c.Targets, " ")
+	} else {
+		s += "-r ."
+	}
 	return strings.TrimSpace(s)
+}
+
+// TargetKind classifies the command-line targets for the coverage statistics.
+func (c c04Cfg) TargetKind(tf c04Files) string {
+	switch {
+	case len(c.Targets) == 0:
+		return "-r ."
+	case len(c.Targets) > 1:
+		return "several targets"
+	}
+	if _, isFile := tf[c.Targets[0]]; isFile {
+		k := c04FileKind(c.Targets[0])
+		if c.Targets[0] == "cat/Makefile" {
+			k = "category Makefile"
+		}
+		return "file " + k
+	}
+	return "directory"
 }
 
 var c04Modes = []string{"default", "show", "fix", "both"}
@@ -53,6 +77,9 @@ func (c c04Cfg) Args(mode string) []string {
 	}
 	for _, o := range c.Only {
 		a = append(a, "--only", o)
+	}
+	if len(c.Targets) > 0 {
+		return append(a, c.Targets...)
 	}
 	return append(a, "-r", ".")
 }
@@ -111,6 +138,27 @@ func c04FileKind(p string) string {
 	return b
 }
 
+var reGoQuoted = regexp.MustCompile(`"(?:[^"\\]|\\.)*"`)
+
+// c04NoopAction: "Replacing x with x." changes nothing by itself.
+func c04NoopAction(msg string) bool {
+	if !strings.HasPrefix(msg, "Replacing ") {
+		return false
+	}
+	m := reGoQuoted.FindAllString(msg, -1)
+	return len(m) == 2 && m[0] == m[1]
+}
+
+func c04CountPath(ds []Diag, p string) int {
+	n := 0
+	for _, d := range ds {
+		if filepath.Clean(d.Path) == p {
+			n++
+		}
+	}
+	return n
+}
+
 func c04Kinds(ds []Diag) string {
 	m := map[string]bool{}
 	for _, d := range ds {
@@ -146,13 +194,14 @@ type c04Finding struct {
 }
 
 type c04Obs struct {
-	Outs         map[string]*c04Out
-	Diverged     int // number of AUTOFIX lines in the symmetric difference of -f and -F
-	Exempted     int // of these, exempt because a rewritten file had been read again
-	StaleReads   int
-	TraceErr     string
-	FixButNoHint string
-	Rewritten    int
+	Outs               map[string]*c04Out
+	Diverged           int // number of AUTOFIX lines in the symmetric difference of -f and -F
+	Exempted           int // of these, exempt because a rewritten file had been read again
+	StaleReads         int
+	TraceErr           string
+	FixButNoHint       string
+	LoggedNotPerformed int
+	Rewritten          int
 }
 
 func (o *c04Out) crashed() bool {
@@ -227,6 +276,29 @@ func c04Evaluate(ctx *Ctx, dir string, tf c04Files, cfg c04Cfg) ([]c04Finding, *
 			break
 		}
 	}
+	// (a') "performs": an AUTOFIX line that -F (or -f -F) logs for a file which is
+	// byte-identical before and after the run announces something that was not
+	// performed -- unless the logged action is a no-op by itself
+	for _, o := range []*c04Out{fix, both} {
+		seenKey := map[string]bool{}
+		for _, d := range o.Fixes {
+			p := filepath.Clean(d.Path)
+			before, okB := tf[p]
+			after, okA := o.After[p]
+			if !okB || !okA || before != after || c04NoopAction(d.Msg) {
+				continue
+			}
+			key := "C04/a/announced-not-performed/file-unchanged/" + c04FileKind(p) + "/" + MsgKind(d.Msg)
+			if seenKey[key] {
+				continue
+			}
+			seenKey[key] = true
+			obs.LoggedNotPerformed++
+			add(key, fmt.Sprintf("[%s] pkglint %s logs %q but leaves %s byte-identical (-f announces %d AUTOFIX lines for it)",
+				cfg, strings.Join(cfg.Args(o.Mode), " "), d.Raw, p, c04CountPath(show.Fixes, p)))
+		}
+	}
+
 	// (b) every diagnostic of -f is a diagnostic of the default run
 	defSet := c04Multiset(def.Diags)
 	bKeys := map[string]bool{}
@@ -494,7 +566,7 @@ func c04StaleTextCause(ctx *Ctx, dir string, tf c04Files, cfg c04Cfg, showStdout
 		if pat == "" {
 			continue
 		}
-		fixed := c04Run(ctx, filepath.Join(dir, "cause-fix"), tf, c04Cfg{Only: []string{pat}}, "fix")
+		fixed := c04Run(ctx, filepath.Join(dir, "cause-fix"), tf, c04Cfg{Only: []string{pat}, Targets: cfg.Targets}, "fix")
 		if len(fixed.Changed) == 0 {
 			continue
 		}
@@ -529,7 +601,69 @@ func c04OnlyPattern(rng *Rng, msg string) string {
 	return best
 }
 
-func c04Configs(ctx *Ctx, rng *Rng, dir string, tf c04Files) []c04Cfg {
+// c04Targets: the files below cat/ that can be given to pkglint on their own, by kind.
+func c04Targets(tf c04Files) (byKind map[string][]string, pkgs []string) {
+	byKind = map[string][]string{}
+	seenPkg := map[string]bool{}
+	for _, k := range sortedKeys(tf) {
+		if !strings.HasPrefix(k, "cat/") {
+			continue
+		}
+		kind := c04FileKind(k)
+		if k == "cat/Makefile" {
+			kind = "category Makefile"
+		}
+		byKind[kind] = append(byKind[kind], k)
+		parts := strings.Split(k, "/")
+		if len(parts) >= 3 && parts[2] == "Makefile" && !seenPkg[parts[1]] {
+			seenPkg[parts[1]] = true
+			pkgs = append(pkgs, "cat/"+parts[1])
+		}
+	}
+	return
+}
+
+// c04TargetConfigs: besides "-r .", run on a package directory, on one file
+// (the kind of file rotates with the tree index, so that every kind the
+// generator writes is reached), and on several targets at once.
+func c04TargetConfigs(rng *Rng, tf c04Files, idx int) []c04Cfg {
+	byKind, pkgs := c04Targets(tf)
+	var cfgs []c04Cfg
+	if len(pkgs) > 0 {
+		cfgs = append(cfgs, c04Cfg{Targets: []string{Pick(rng, pkgs)}, Source: rng.Chance(20)})
+	}
+	kinds := sortedKeys(byKind)
+	var all []string
+	for _, k := range kinds {
+		all = append(all, byKind[k]...)
+	}
+	if len(kinds) > 0 {
+		k := kinds[idx%len(kinds)]
+		cfgs = append(cfgs, c04Cfg{Targets: []string{Pick(rng, byKind[k])}, Source: rng.Chance(20)})
+		if rng.Chance(50) { // a second single file, of a random kind
+			cfgs = append(cfgs, c04Cfg{Targets: []string{Pick(rng, all)}})
+		}
+	}
+	if len(all) > 1 {
+		n := 2 + rng.Intn(2)
+		var ts []string
+		seen := map[string]bool{}
+		for len(ts) < n {
+			t := Pick(rng, append(append([]string{}, all...), pkgs...))
+			if !seen[t] {
+				seen[t] = true
+				ts = append(ts, t)
+			}
+			if len(seen) >= len(all)+len(pkgs) {
+				break
+			}
+		}
+		cfgs = append(cfgs, c04Cfg{Targets: ts})
+	}
+	return cfgs
+}
+
+func c04Configs(ctx *Ctx, rng *Rng, dir string, tf c04Files, idx int) []c04Cfg {
 	cfgs := []c04Cfg{{}, {Source: true}}
 	// what does the tree trigger?
 	probe := c04Run(ctx, filepath.Join(dir, "probe-default"), tf, c04Cfg{}, "default")
@@ -550,7 +684,7 @@ func c04Configs(ctx *Ctx, rng *Rng, dir string, tf c04Files) []c04Cfg {
 			}
 		}
 	}
-	return cfgs
+	return append(cfgs, c04TargetConfigs(rng, tf, idx)...)
 }
 
 type c04Case struct {
@@ -586,7 +720,7 @@ func c04WholeRun(ctx *Ctx, res *Result, rng *Rng, ntrees int) {
 		if i%3 != 0 {
 			c04Augment(j.rng.Fork(), tf, g.Pkgs, j.opts.Density, g.Features)
 		}
-		for _, cfg := range c04Configs(ctx, j.rng, dir, tf) {
+		for _, cfg := range c04Configs(ctx, j.rng, dir, tf, i) {
 			fs, obs := c04Evaluate(ctx, dir, tf, cfg)
 			res.mu.Lock()
 			res.Evaluations++
@@ -596,6 +730,11 @@ func c04WholeRun(ctx *Ctx, res *Result, rng *Rng, ntrees int) {
 			if show.crashed() {
 				res.Count("whole.crashed-runs(skipped)", 1)
 				continue
+			}
+			tk := cfg.TargetKind(tf)
+			res.Count("whole.target "+tk, 1)
+			if len(show.Fixes) > 0 {
+				res.Count("whole.target-with-AUTOFIX "+tk, 1)
 			}
 			if len(show.Fixes) > 0 {
 				res.Count("whole.evaluations-with-AUTOFIX", 1)
@@ -691,6 +830,11 @@ func c04WholeRun(ctx *Ctx, res *Result, rng *Rng, ntrees int) {
 					only = append(only, hx(o))
 				}
 				rep["only"] = only
+				tg := []any{}
+				for _, t := range oc.cfg.Targets {
+					tg = append(tg, t)
+				}
+				rep["targets"] = tg
 				rep["argv_default"] = strings.Join(oc.cfg.Args("default"), " ")
 				rep["argv_show"] = strings.Join(oc.cfg.Args("show"), " ")
 				rep["argv_fix"] = strings.Join(oc.cfg.Args("fix"), " ")
@@ -712,6 +856,13 @@ func c04ReplayWhole(ctx *Ctx, res *Result, rep map[string]any) {
 			}
 		}
 	}
+	if ts, ok := rep["targets"].([]any); ok {
+		for _, t := range ts {
+			if s, ok := t.(string); ok {
+				cfg.Targets = append(cfg.Targets, s)
+			}
+		}
+	}
 	dir := filepath.Join(ctx.Work, "c04replay")
 	fs, obs := c04Evaluate(ctx, dir, tf, cfg)
 	res.Evaluations++
@@ -724,7 +875,7 @@ func c04ReplayWhole(ctx *Ctx, res *Result, rep map[string]any) {
 	}
 	for _, f := range fs {
 		rep2 := tf.ToReplay(base)
-		for _, k := range []string{"kind", "source", "only"} {
+		for _, k := range []string{"kind", "source", "only", "targets"} {
 			rep2[k] = rep[k]
 		}
 		res.AddViolation(Violation{Key: f.Key, What: f.What, FoundInput: true, Size: tf.Size(), Replay: rep2})
@@ -782,6 +933,15 @@ func c04Floors(res *Result) {
 	floor("whole.F-rewrote-2+-files", 50)
 	floor("whole.default-runs-with-hint", 100)
 	floor("whole.f-vs-F-diverging-lines-exempt(stale read traced)", 5)
+	for _, k := range []string{"Makefile", "*.mk", "PLIST", "distinfo", "DESCR", "patch", "category Makefile"} {
+		floor("whole.target file "+k, 5)
+	}
+	for _, k := range []string{"Makefile", "*.mk", "PLIST", "distinfo"} {
+		floor("whole.target-with-AUTOFIX file "+k, 3)
+	}
+	floor("whole.target file ALTERNATIVES", 2)
+	floor("whole.target directory", 50)
+	floor("whole.target several targets", 50)
 	for _, a := range []string{"Replacing _ with _.", "Inserting a line _ above this line.", "Deleting this line.", "Sorting the whole file."} {
 		floor("whole.action "+a, 10)
 	}
